@@ -426,7 +426,7 @@ fn run_d(ops: &str) -> String {
     }
     drop(exchanges);
     drop(handles);
-    format!("{}| ev={}", out.trim_end(), if monitor.is_empty() { "-" } else { &monitor })
+    format!("{} | ev={}", out.trim_end(), if monitor.is_empty() { "-" } else { &monitor })
 }
 
 // ------------------------------------------------------------------ V / W: rendezvous
@@ -557,7 +557,7 @@ fn run_v(browse: bool, ops: &str) -> String {
     }
     // every remaining requester is cancelled: the slot must be free afterwards
     reqs.clear();
-    format!("{}| end={}", out.trim_end(), slot())
+    format!("{} | end={}", out.trim_end(), slot())
 }
 
 // ------------------------------------------------------------------ E: end to end
